@@ -4,11 +4,13 @@
                         operands; i*i = -1+0i exactly
       C08_mapping       every other operator / function is the like-named num_complex operation, with the
                         arguments in the documented order (root(n,x) = x^(1/n), log(x,b) = ln x / ln b)
+      C08_real_operands one of + - * applied directly to two real operands: the real part is eval_f64's result bit for
+                        bit (for ALL doubles, non-finite included) and the imaginary part is a zero (finite operands)
     Partial: the 1e-12 / 1e-9 accuracy of num_complex's division, modulus, powers and elementary functions and
     the agreement with eval_f64 on real operands are properties of external floating-point code: tested on
     every run against Python's cmath and against eval_f64 (exploration-level support), not proved. *)
 From Coq Require Import List ZArith NArith Bool.
-From SC Require Import Base.Res Base.F64 Base.Oracle Lang.Syntax Lang.Lexer Lang.Literal Lang.Parser Eval.EvalCpx Gen.Tables.
+From SC Require Import Base.Res Base.F64 Base.Oracle Lang.Syntax Lang.Lexer Lang.Literal Lang.Parser Eval.EvalCpx Eval.EvalF64 Gen.Tables Proofs.CpxFacts.
 Import ListNotations.
 Local Open Scope N_scope.
 
@@ -56,3 +58,11 @@ Theorem C08_mapping :
     un_cpx C ULn a = Ok (c1 C CLn a) /\ un_cpx C USin a = Ok (c1 C CSin a) /\ un_cpx C UArtanh a = Ok (c1 C CAtanh a).
 Proof. intros. repeat split; reflexivity. Qed.
 Print Assumptions C08_mapping.
+
+Theorem C08_real_operands :
+  forall (C : cpxlib) (L : libm) (o : binop) (a b : f64),
+    o = BAdd \/ o = BSubtract \/ o = BMultiply ->
+    exists re im, bin_cpx C o (a, fzero) (b, fzero) = Ok (re, im) /\ bin_f64 L o a b = Ok re /\
+                  (BinarySingleNaN.is_finite a = true -> BinarySingleNaN.is_finite b = true -> is_zero im = true).
+Proof. exact real_binop. Qed.
+Print Assumptions C08_real_operands.
